@@ -640,6 +640,41 @@ class G:
             stmts.append(("let", v, ("map", ("func", [p], body), ("list", [arg]))))
             self.scope.append((v, ("list", ret)))
 
+    def stmt_append_func(self, stmts):
+        """a two-parameter function whose second parameter is named like a binding of the caller that has another type and is
+        used inside a composite literal combined with the first parameter; the caller's binding is used again afterwards"""
+        r = self.r
+        outer = [(nm, t) for nm, t in self.scope if t in SIMPLE and gen.BAREWORD_RE.match(nm) and nm not in gen.RESERVED]
+        if not outer:
+            return False
+        self.use("append-func-param-named-like-binding")
+        nm, at = r.choice(outer)
+        T = r.choice([t for t in SIMPLE if t != at])
+        a = self.fresh("p")
+        k = r.randrange(4)
+        A, B = ("sym", a), ("sym", nm)
+        if k == 0:
+            body, pt, ret = ("bin", "+", A, ("list", [B])), ("list", T), ("list", T)
+        elif k == 1:
+            body, pt, ret = ("bin", "+", ("list", [B]), A), ("list", T), ("list", T)
+        elif k == 2:
+            body, pt, ret = ("copy", A, [("x", B)]), ("tuple", (("x", T),)), ("tuple", (("x", T),))
+        else:
+            body, pt, ret = ("list", [A, ("list", [B])]), T, None
+        f = self.fresh("f")
+        stmts.append(("let", f, ("func", [a, nm], body)))
+        v = self.fresh()
+        stmts.append(("let", v, ("call", ("sym", f), [self.literal(pt), self.literal(T)])))
+        if ret is not None:
+            self.scope.append((v, ret))
+        # the caller's binding still has its own type
+        use = {"int": ("bin", "+", B, ("int", 1)), "str": ("bin", "+", B, ("str", "x")), "bool": ("bin", "&&", B, ("bool", True)),
+               "float": ("bin", "+", B, ("float", "0.5"))}[at]
+        w = self.fresh()
+        stmts.append(("let", w, use))
+        self.scope.append((w, at))
+        return True
+
     def stmt_tuple_ops(self, stmts):
         """operations whose result type is computed from the operand: map over a tuple that renames fields or changes the
         values, reduce over a tuple, copy that appends fields - appends one let statement"""
@@ -777,6 +812,8 @@ class G:
                 self.stmt_record_func(stmts)
                 continue
             elif x < 0.42:
+                if r.random() < 0.35 and self.stmt_append_func(stmts):
+                    continue
                 self.stmt_tuple_ops(stmts)
                 continue
             elif x < 0.45:
